@@ -578,6 +578,29 @@ class Inliner(object):
       if len(local) == 1 and f.id not in _stores(
           [s for s in caller.body if s is not local[0]]):
         return local[0], '<local>.' + f.id, 'closure', None
+      if not local:
+        # defined inside a branch of the caller (and only there, once)
+        deep = []
+        stack = list(caller.body)
+        while stack:
+          x = stack.pop()
+          if isinstance(x, ast.FunctionDef):
+            if x.name == f.id:
+              deep.append(x)
+            continue
+          if isinstance(x, (ast.ClassDef, ast.AsyncFunctionDef)):
+            continue
+          for field in ('body', 'orelse', 'finalbody'):
+            b = getattr(x, field, None)
+            if isinstance(b, list):
+              stack.extend(y for y in b if isinstance(y, ast.stmt))
+          for h in getattr(x, 'handlers', None) or []:
+            stack.extend(h.body)
+        others = sum(1 for n in ast.walk(caller) if isinstance(n, ast.Name) and
+                     n.id == f.id and isinstance(n.ctx, (ast.Store, ast.Del)))
+        if len(deep) == 1 and not others and f.id not in [
+            a.arg for a in caller.args.args]:
+          return deep[0], '<local>.' + f.id, 'closure', None
     if isinstance(f, ast.Name) and f.id in self.module_funcs:
       if f.id in _stores(caller) or f.id in [a.arg for a in caller.args.args]:
         return None
